@@ -21,8 +21,9 @@ META = dict(
           "forward pass: z = P a + b - F + sum shift(z+_c), A_GB = shift(A_GP) + H udot + a, the force across the joint P(A_GB - a) + z equals P+ shift(A_GP) + z+ (the induction invariant of the "
           "inward pass) and satisfies the joint equation ~H(.) = f_mobility; inverse pass: A_GB as above, F = Mk A_GB + b - F_applied + sum shift(F_c) written out as Newton-Euler at the body origin, "
           "tau = ~H F - f. Velocity bias terms: the mobilizer coriolis acceleration is the velocity-dependent part of the exact time derivative of the velocity recursion (dual numbers) and the "
-          "gyroscopic force is what Newton-Euler (differentiated spatial momentum about the moving body origin) requires beyond Mk A. "
-          "(T, BOUNDED: ground + 1 body and ground + 2-body chain, 1 symbolic mobility per body, passes run in the transliterated driver order): inverse(forward(f,F)) has zero residual, "
+          "gyroscopic force is what Newton-Euler (differentiated spatial momentum about the moving body origin) requires beyond Mk A; H = H_PB_G from H_FM and HDot = d/dt H for the 8 frame "
+          "specialisations <noR_FM,noX_MB,noR_PF> (calcParentToChildVelocityJacobianInGround[Dot]). "
+          "(T, BOUNDED: ground + 1 body, ground + 2-body chain, ground + 2 bodies both on Ground, 1 symbolic mobility per body, passes run in the transliterated driver order): inverse(forward(f,F)) has zero residual, "
           "forward(f + inverse(udot*)) = udot*, residual = M udot + C(q,u) - f - ~J F. Over the reals (z3 QF_NRA). NOT decided: the induction over arbitrary trees (only the induction step = "
           "node lemmas and its instances n <= 2 are machine checked), branching in the composition, prescribed motion, constraints, the mobilizer-specific H/HDot and N (C03/C05), "
           "position kinematics (Phi, Mk_G from X_GB), calcQDotDot, float rounding."),
@@ -92,26 +93,28 @@ def main(ctx):
         unit(ctx, "abi+fd.dof%d" % dof, node)
         unit(ctx, "id.dof%d" % dof, lambda dof=dof: DL.id_lemmas(B, DL.NodeScenario(B, dof, 1), "id.dof%d" % dof))
         unit(ctx, "vel.dof%d" % dof, lambda dof=dof: DL.vel_lemmas(B, dof, "vel.dof%d" % dof))
+        unit(ctx, "hpbg.dof%d" % dof, lambda dof=dof: DL.hpbg_lemmas(B, dof, "hpbg.dof%d" % dof))
     # a leaf node and a node with two children: the same members on the other loop counts
     def shapes():
-        for nchild in (0, 2):
-            sc = DL.NodeScenario(B, 1, nchild)
-            abi = DL.abi_lemmas(B, sc, "abi.dof1.children%d" % nchild) if nchild else None
-            if nchild:
-                DL.fd_lemmas(B, sc, abi, "fd.dof1.children%d" % nchild)
-            DL.id_lemmas(B, DL.NodeScenario(B, 1, nchild), "id.dof1.children%d" % nchild)
+        for nchild, dof in [(0, 1), (0, 3), (2, 1)] + ([(2, 3)] if thorough else []):
+            sc = DL.NodeScenario(B, dof, nchild)
+            abi = DL.abi_lemmas(B, sc, "abi.dof%d.children%d" % (dof, nchild))
+            DL.fd_lemmas(B, sc, abi, "fd.dof%d.children%d" % (dof, nchild))
+            DL.id_lemmas(B, DL.NodeScenario(B, dof, nchild), "id.dof%d.children%d" % (dof, nchild))
     unit(ctx, "shapes", shapes)
     for nb in (1, 2):
         unit(ctx, "tree%d.dyn" % nb, lambda nb=nb: (DL.tree_roundtrips(B, nb, "tree%d.dyn" % nb, "dyn"), DL.tree_dyn_extra(B, nb, "tree%d.dyn" % nb)))
+    unit(ctx, "fork2.dyn", lambda: (DL.tree_roundtrips(B, 2, "fork2.dyn", "dyn", shape="fork"), DL.tree_dyn_extra(B, 2, "fork2.dyn", shape="fork")))
     for k, v in B.drivers.items():
         if v < 1:
             ctx.undecide("driver %s: no level loop transliterated" % k)
     common_evidence(ctx, B)
     ctx.not_decided += [
         "induction over arbitrary trees: the node lemmas are the induction step (arbitrary parent motion, arbitrary child P+/z+/F), the composition is enacted only for ground + 1 body and ground + 2-body chain "
-        "(1 mobility per body); branching trees and deeper chains are not composed",
+        "and ground + 2 bodies both on Ground (1 mobility per body); deeper chains and branching below a moving body are not composed",
         "prescribed motion (isUDotKnown branches, tau), constraints (calcLoopForwardDynamicsOperator, multipliers), calcAcceleration's constraint handling",
-        "the mobilizer-specific parts: H_FM/HDot_FM, H = H_PB_G (calcParentToChildVelocityJacobianInGround[Dot]), N/NDot/qdotdot (C03/C05 cover H_FM, HDot_FM, N per mobilizer)",
+        "the mobilizer-specific parts: H_FM/HDot_FM, N/NDot/qdotdot (C03/C05 cover H_FM, HDot_FM, N per mobilizer); H_PB_G/HDot_PB_G are tied to H_FM/HDot_FM here (hpbg.*) for arbitrary "
+        "(not necessarily orthonormal) R_GP, R_PF, R_FM, but the realize sequence that feeds them (calcBodyTransforms, X_GP recursion) is not enacted",
         "position kinematics: Phi = PhiMatrix(p_PB_G), Mk_G = SpatialInertia(mass, R_GB*com, G reexpressed) (calcJointIndependentKinematicsPos; C29 covers the mass-property operators)",
         "realizeYOutward, calcEquivalentJointForces / calcTreeEquivalentMobilityForces (transliterated, no obligations), LoneParticle and Weld nodes, Custom mobilizers",
         "the State/cache/stage plumbing of the SimbodyMatterSubsystemRep drivers (realized-flags, resize, zero-length argument conveniences, calcConstraintAccelerationErrors)",
@@ -123,16 +126,47 @@ def main(ctx):
 
 
 _RUN = {}
+DYN_SRCS = ("RigidBodyNodeSpec.cpp", "RigidBodyNode.cpp", "RigidBodyNode_Weld.cpp", "RigidBodyNodeSpec_Derived.cpp", "SimbodyMatterSubsystemRep.cpp")
+
+
+def build_replay(ctx):
+    """c02_replay linked from objects of the CURRENT tree's dynamics sources (compiled in parallel, at most 4 at a time; objects cached under
+    out/.c02_objcache keyed by the hash of the PREPROCESSED translation unit, so header changes are seen) + the private library build for the rest"""
+    import hashlib
+    from concurrent.futures import ThreadPoolExecutor
+    src = os.path.join(REPO, "Simbody/src")
+    cache = os.path.join(VERIF, "out", ".c02_objcache")
+    os.makedirs(cache, exist_ok=True)
+    b = ensure_libs(ctx)
+    inc = ["-I" + i for i in repo_includes()] + ["-I" + src]
+    files = [os.path.join(src, x) for x in DYN_SRCS] + [os.path.join(VERIF, "replay/c02_replay.cpp")]
+    def one(f):
+        rc, o, e, t = run(["g++", "-std=c++17", "-O1", "-w", "-E", "-P", f] + inc, 300)
+        if rc != 0:
+            raise Undecided("preprocessing %s failed: %s" % (f, e[-400:]))
+        obj = os.path.join(cache, "%s.%s.o" % (os.path.basename(f), hashlib.sha256(o.encode()).hexdigest()[:20]))
+        if not os.path.exists(obj):
+            tmp = obj + ".tmp%d" % os.getpid()
+            rc, o, e, t = run(["g++", "-std=c++17", "-O1", "-w", "-c", f, "-o", tmp] + inc, 1500)
+            if rc != 0:
+                raise Undecided("native compile of %s failed: %s" % (f, (o + e)[-600:]))
+            os.replace(tmp, obj)
+        return obj
+    with ThreadPoolExecutor(max_workers=4) as ex:
+        objs = list(ex.map(one, files))
+    exe = os.path.join(ctx.out, "c02_replay")
+    rc, o, e, t = run(["g++", "-o", exe] + objs + ["-L" + b, "-Wl,-rpath," + b, "-lSimTKsimbody", "-lSimTKmath", "-lSimTKcommon", "-lpthread", "-ldl", "-l:libopenblas.so.0"], 300)
+    if rc != 0:
+        raise Undecided("native link of c02_replay failed: %s" % (o + e)[-600:])
+    return exe
 
 
 def replay(ctx, ob, checks="all"):
     """native witness search: random small trees through the public API, dynamics .cpp files of the CURRENT tree compiled into the driver"""
     if "res" not in _RUN:
-        src = os.path.join(REPO, "Simbody/src")
-        exe = native_build(ctx, "c02_replay", os.path.join(VERIF, "replay/c02_replay.cpp"), libs=True,
-                           extra_srcs=[os.path.join(src, x) for x in ("RigidBodyNodeSpec.cpp", "RigidBodyNode.cpp", "RigidBodyNode_Weld.cpp", "RigidBodyNodeSpec_Derived.cpp",
-                                                                     "SimbodyMatterSubsystemRep.cpp")] + ["-l:libopenblas.so.0"], extra_inc=[src], timeout=1800)
+        exe = build_replay(ctx)
         args = ["seed=%d" % ctx.seed, "ntrees=60", "checks=" + checks]
         rc, o, e, t = run([exe] + args, 600)
-        _RUN["res"] = (dict(cmd="c02_replay " + " ".join(args), output=o[-4000:], stderr=e[-500:]), "REPRODUCED:" in o)
+        lines = o.strip().split("\n")
+        _RUN["res"] = (dict(cmd="c02_replay " + " ".join(args), output="\n".join(lines if len(lines) <= 14 else lines[:12] + ["..."] + lines[-1:]), stderr=e[-500:]), "REPRODUCED:" in o)
     return _RUN["res"]
